@@ -69,4 +69,51 @@ def traceW (fs : FS) : List Call → List Op
 def crashW (fs : FS) (w : List Call) (k : Nat) (n : Option Nat) : FS :=
   crash fs (traceW fs w) k n
 
+/-! ### Exception faults
+
+  The second way a store is interrupted: operation `j` of a call raises an
+  ordinary exception (ENOSPC, I/O error), possibly after a torn partial write.
+  The process lives on: the exception propagates through the code's own
+  `finally` / `__exit__` blocks, whose file-system operations DO happen, and
+  the call ends there.  What those blocks do is part of the model:
+
+  * `path_lock.__exit__` (database lock, annotation/log locks): no
+    file-system operation;
+  * `LocalModelDirectoryDatabase.transaction`: `path.unlink()` comes after
+    the `yield`, NOT inside a `finally` — it is skipped when the body raises,
+    so PENDING stays (`unlinkInFinally = false`).  The variant with a
+    `try/finally` around the `yield` is `txnCleanup true`. -/
+
+/-- Cleanup operations of `transaction(k)` when operation `j` of the call
+    raises: with a `finally` around the `yield` (`fin`), and only when the
+    exception is raised inside the `with` body (the marker was created, the
+    final unlink not yet reached), the marker is removed. -/
+def txnCleanup (fin : Bool) (k : String) (fs : FS) (nops j : Nat) : List Op :=
+  if fin && decide ((openKey k fs).length < j) && decide (j + 1 < nops)
+      && !pexists (applyAll fs (openKey k fs)) (pendingPath k)
+  then [.unlink (pendingPath k)] else []
+
+/-- The code as it is. -/
+def unlinkInFinally : Bool := false
+
+/-- Cleanup operations run after operation `j` of the call raised. -/
+def Call.cleanupWith (fin : Bool) (c : Call) (fs : FS) (j : Nat) : List Op :=
+  match c with
+  | .dbStoreEntry m => txnCleanup fin m.key fs (C16.dbStoreEntry m fs).1.length j
+  | .dbStoreModel m => txnCleanup fin m.key fs (C16.dbStoreModel m fs).1.length j
+  | .dbStoreMetadata k md => txnCleanup fin k fs (C16.dbStoreMetadata k md fs).1.length j
+  | .ctxStore _ _ m =>
+    -- only the transaction part of Context._store_model has a cleanup
+    if j < (C16.dbStoreEntry m fs).1.length then txnCleanup fin m.key fs (C16.dbStoreEntry m fs).1.length j else []
+  | _ => []
+
+def Call.cleanup (c : Call) (fs : FS) (j : Nat) : List Op := c.cleanupWith unlinkInFinally fs j
+
+/-- The state after operation `j` of call `c` raised an exception (torn
+    parameter `n`) and the exception left the call. -/
+def excFaultWith (fin : Bool) (fs : FS) (c : Call) (j : Nat) (n : Option Nat) : FS :=
+  applyAll (crash fs (c.ops fs) j n) (c.cleanupWith fin fs j)
+
+def excFault (fs : FS) (c : Call) (j : Nat) (n : Option Nat) : FS := excFaultWith unlinkInFinally fs c j n
+
 end Pharmpy.C16
